@@ -222,6 +222,25 @@ def B(b):
     return 'true' if b else 'false'
 
 
+def fcl(z):
+    z = complex(z)
+    f = lambda x: ('(%s)' % float(x).hex()) if float(x).hex().startswith('-') else float(x).hex()
+    return f'({f(z.real)}, {f(z.imag)})%float'
+
+
+def ch_coq(c):
+    bmx = lambda m: '[' + ';'.join('[' + ';'.join(str(int(x)) for x in row) + ']' for row in np.asarray(m)) + ']'
+    bvx = lambda v: '[' + ';'.join(str(int(x)) for x in np.asarray(v)) + ']'
+    gam = '[' + ';'.join(str(int(x) % 4) for x in c.gamma) + ']%Z'
+    return f'(C {bmx(c.F)} {bmx(c.G)} {bmx(c.M)} {gam} {bvx(c.v)} {bvx(c.s)} {fcl(c.omega)})'
+
+
+def op_phase(op):
+    if op['fam'] == 'PH':
+        return PHASES[op['phase']]
+    return cmath.exp(1j * math.pi * op['shift'] * (op['q4'] / 4.0))
+
+
 # ------------------------------------------------------------------ the walk: one circuit, every oracle after every step
 def measured_bit(state, key):
     rec = state.classical_data.records
@@ -239,7 +258,8 @@ def walk(ctx, cirq, case, report=True):
     psi = np.zeros(2 ** n, dtype=complex)
     psi[init] = 1
     t0 = tab_coq(ts.tableau)
-    steps, fails = [], []
+    c0 = ch_coq(cs.state)
+    steps, chsteps, fails = [], [], []
 
     def oracles(label):
         bad = stabilizer_failures(ts.tableau, psi)
@@ -262,6 +282,7 @@ def walk(ctx, cirq, case, report=True):
             u = cirq.unitary(o)
             psi = ref_apply(psi, u, [qubits.index(q) for q in o.qubits], n) if o.qubits else psi * complex(u.reshape(-1)[0])
             steps.append(f'SG {op_cgate(op)} (Some {tab_coq(ts.tableau)})' if op['kind'] == 'g' else f'SSkip {tab_coq(ts.tableau)}')
+            chsteps.append(f'HG {op_cgate(op)} {fcl(op_phase(op))} (Some {ch_coq(cs.state)})' if op['kind'] == 'g' else f'HSkip {ch_coq(cs.state)}')
             oracles(label)
         elif op['kind'] == 'e':          # direct call with an inadmissible exponent: must raise and leave the tableau alone
             t = ts.tableau
@@ -275,6 +296,14 @@ def walk(ctx, cirq, case, report=True):
             steps.append(f'SG {op_cgate(op)} ({"None" if raised else "Some " + tab_coq(t)})')
             if raised and t != before:
                 fails.append(('error-path', op['fam'], 'apply_* raised ValueError after modifying the tableau'))
+            chb = cs.state.copy()
+            try:
+                getattr(cs.state, 'apply_' + op['fam'].lower())(*op['axes'], op['q4'] / 4.0, op['shift'])
+                chsteps.append(f'HG {op_cgate(op)} {fcl(op_phase(op))} (Some {ch_coq(cs.state)})')
+            except ValueError:
+                chsteps.append(f'HG {op_cgate(op)} {fcl(op_phase(op))} None')
+                if ch_coq(chb) != ch_coq(cs.state):
+                    fails.append(('error-path', op['fam'], 'CH-form apply_* raised ValueError after modifying the state'))
         elif op['kind'] == 'm':
             q = op['axes'][0]
             key = f'm{k}'
@@ -318,6 +347,7 @@ def walk(ctx, cirq, case, report=True):
                 hits += o
                 if o == out and chosen is None:
                     chosen = cc
+                    chsteps.append(f'HM {q} [{"; ".join(B(b) for b in bits)}] {ch_coq(cc.state)} {B(o)}')
             pch = hits / 2 ** nv
             if abs(pch - p1) > ATOL:
                 fails.append(('measure-prob', 'chform', f'CH-form measurement of qubit {q}: P(1) = {pch:.6f} over all {2 ** nv} scripts, Born P(1) = {p1:.6f}'))
@@ -331,7 +361,7 @@ def walk(ctx, cirq, case, report=True):
             psi, cs = newpsi, chosen
             cs._prng = Script()
             oracles('measure')
-    return (case['n'], t0, steps), fails
+    return (case['n'], t0, steps), (c0, chsteps), fails
 
 
 def project(psi, q, out, n):
@@ -362,12 +392,15 @@ def gen_case(rng, cid, tier):
 
 
 def walk_stream(ctx, cirq, count):
-    traces, cases = [], []
+    traces, chtraces, cases = [], [], []
     for cid in range(count):
         case = gen_case(ctx.rng, cid, ctx.tier)
-        trace, fails = walk(ctx, cirq, case)
+        trace, chtrace, fails = walk(ctx, cirq, case)
         report_fails(ctx, case, fails)
         traces.append(trace)
+        chtraces.append(chtrace)
+        for k, hs in enumerate(chtrace[1]):
+            ctx.count('chform_step', [case['id'], k], not hs.startswith('HSkip'), sample=dict(n=case['n'], step=hs[:200]))
         cases.append(case)
         for k, s in enumerate(trace[2]):
             nontrivial = not s.startswith('SSkip')
@@ -377,6 +410,8 @@ def walk_stream(ctx, cirq, count):
     for ti, k in bad:
         ctx.mark_broken('correspondence:tableau_rule_step', f'circuit {ti} step {k}: model and implementation tableaux differ: {traces[ti][2][k][:300]}')
         # the spec-level oracles already ran on this very circuit (walk); a failure there is the failing input
+    for ti, k in eval_chtraces(ctx, 'chwalk', chtraces):
+        ctx.mark_broken('correspondence:chform_step', f'circuit {ti} step {k}: model and implementation CH forms differ: {chtraces[ti][1][k][:400]}')
 
 
 def report_fails(ctx, case, fails):
@@ -396,6 +431,28 @@ def eval_traces(ctx, name, traces, shard=40):
     if not items:
         return []
     coq.make(['Cliff/TableauHarness.vo'])
+    with ThreadPoolExecutor(max_workers=6) as ex:
+        outs = list(ex.map(lambda it: coq.coq_eval(it[0], it[1]), items))
+    bad = []
+    for (nm, _, s), out in zip(items, outs):
+        vals = coq.parse_evals(out)
+        assert len(vals) == 1, out[-500:]
+        nums = coq.parse_nat_list(vals[0])
+        bad += [(s + nums[i], nums[i + 1]) for i in range(0, len(nums), 2)]
+    return bad
+
+
+def eval_chtraces(ctx, name, chtraces, shard=40):
+    head = ('From Coq Require Import List Bool ZArith PrimFloat.\nFrom VF Require Import Base.FloatInst Cliff.Tableau Cliff.CHForm Cliff.CHFormHarness.\n'
+            'Import ListNotations.\nOpen Scope nat_scope.\n')
+    items = []
+    for s in range(0, len(chtraces), shard):
+        body = ';\n'.join(f'({c0}, [\n  ' + ';\n  '.join(steps) + '])' for c0, steps in chtraces[s:s + shard])
+        items.append((f'c13_{name}_{ctx.seed}_{s}', head + 'Definition traces : list chtrace := [\n' + body + '].\n'
+                      'Eval vm_compute in bad_chtraces traces 0.\n', s))
+    if not items:
+        return []
+    coq.make(['Cliff/CHFormHarness.vo'])
     with ThreadPoolExecutor(max_workers=6) as ex:
         outs = list(ex.map(lambda it: coq.coq_eval(it[0], it[1]), items))
     bad = []
@@ -797,10 +854,10 @@ def replay(ctx, data):
     k = data.get('kind')
     before = len(ctx.violations) + len(ctx.known_hits)
     if k == 'walk':
-        trace, fails = walk(ctx, cirq, data['case'])
+        trace, chtrace, fails = walk(ctx, cirq, data['case'])
         for f in fails:
             print('FAIL', f)
-        bad = eval_traces(ctx, 'replay', [trace])
+        bad = eval_traces(ctx, 'replay', [trace]) + eval_chtraces(ctx, 'chreplay', [chtrace])
         print('model disagreements (trace, step):', bad)
         return not fails and not bad
     if k == 'e2e':
